@@ -405,7 +405,529 @@ def check_C13(tier: str, seed: int) -> int:
         w.cleanup()
 
 
-CHECKS: Dict[str, Callable[[str, int], int]] = {"C01": check_C01, "C04": check_C04, "C13": check_C13}
+
+# ==========================================================================
+# pixel helpers (direct oracles that need no blend arithmetic beyond mul_un8)
+# ==========================================================================
+def mul_un8(a: int, b: int) -> int:
+    t = a * b + 128
+    return (((t >> 8) + t) >> 8) & 255
+
+
+def packpix(r, g, b, a) -> int:
+    return 0 if a == 0 else r + 256 * g + 65536 * b + 16777216 * a
+
+
+def unpackpix(v: int) -> Tuple[int, int, int, int]:
+    return (v & 255, (v >> 8) & 255, (v >> 16) & 255, (v >> 24) & 255)
+
+
+def to_rgba(s: dict, px, bg: bool) -> Tuple[int, int, int, int]:
+    d = s["depth"]
+    if d == 32:
+        return tuple(px)
+    if d == 16:
+        return (px[0], px[0], px[0], px[1])
+    r, g, b, a, _n = s["palette"][px]
+    if px == s["transparent"] and not bg:
+        a = 0
+    return (r, g, b, a)
+
+
+def expected_cel_image(s: dict, f: int, l: int) -> List[int]:
+    """canvas-sized image (packed, row-major) of cel (f, l): stored pixels at the offset, clipped,
+    alpha scaled by the rounded product of layer and cel opacity; links resolved"""
+    W, H = s["width"], s["height"]
+    img = [0] * (W * H)
+    c = s["cels"].get((f, l))
+    if c is None:
+        return img
+    if c["kind"] == "linked":
+        c = s["cels"][(c["frame"], l)]
+    lay = s["layers"][l]
+    op = mul_un8(lay["opacity"], c["opacity"])
+    bg = bool(lay["flags"] & 8)
+
+    def put(x, y, rgba):
+        if 0 <= x < W and 0 <= y < H:
+            a = mul_un8(rgba[3], op)
+            img[y * W + x] = packpix(rgba[0], rgba[1], rgba[2], a)
+    if c["kind"] == "tilemap":
+        ts = next(t for t in s["tilesets"] if t["id"] == lay["tileset"])
+        tw, th = ts["tw"], ts["th"]
+        for ty in range(c["h"]):
+            for tx in range(c["w"]):
+                tid = c["tiles"][ty * c["w"] + tx]
+                for py in range(th):
+                    for px_ in range(tw):
+                        p = ts["pixels"][tid * tw * th + py * tw + px_]
+                        put(tx * tw + px_ + c["x"], ty * th + py + c["y"], to_rgba(s, p, False))
+    else:
+        for yy in range(c["h"]):
+            for xx in range(c["w"]):
+                put(c["x"] + xx, c["y"] + yy, to_rgba(s, c["pixels"][yy * c["w"] + xx], bg))
+    return img
+
+
+def covered_mask(s: dict, f: int) -> List[bool]:
+    """pixels of frame f covered by the rectangle of some cel of a visible layer"""
+    W, H = s["width"], s["height"]
+    m = [False] * (W * H)
+    vis = gen.visible_of(s)
+    for l in range(len(s["layers"])):
+        c = s["cels"].get((f, l))
+        if c is None or not vis[l]:
+            continue
+        if c["kind"] == "linked":
+            c = s["cels"][(c["frame"], l)]
+        if c["kind"] == "tilemap":
+            ts = next(t for t in s["tilesets"] if t["id"] == s["layers"][l]["tileset"])
+            w, h = c["w"] * ts["tw"], c["h"] * ts["th"]
+        else:
+            w, h = c["w"], c["h"]
+        for y in range(max(0, c["y"]), min(H, c["y"] + h)):
+            for x in range(max(0, c["x"]), min(W, c["x"] + w)):
+                m[y * W + x] = True
+    return m
+
+
+def images_of(block, kind: int) -> Dict[tuple, List[int]]:
+    """{key words before the image: [w, h, pixels...]}: 22 f | 24 f l | 27 l f | 19 id | 20 id t"""
+    nkey = {22: 1, 24: 2, 27: 2, 19: 1, 20: 2}[kind]
+    return {tuple(l[1:1 + nkey]): l[1 + nkey:] for l in block[0] if l and l[0] == kind}
+
+
+# ==========================================================================
+# generic runner for the rendering family
+# ==========================================================================
+def run_sprites(prop: str, tier: str, seed: int, level: int, nq: int, nt: int, genkw: dict, kinds,
+                direct: Callable[[dict, bytes, object], List[str]], rule: str, expected: List[str],
+                profiles=("release",), extra_cases: Optional[Callable] = None, include_corpus=True,
+                max_frames=None, max_layers=None) -> int:
+    v = Verdict(prop, tier, seed, "proof")
+    ob = vplib.check_obligations(prop, expected=expected)
+    vplib.build_harness(list(profiles))
+    w = Work(prop)
+    try:
+        rng = random.Random(seed)
+        n = nq if tier == "quick" else nt
+        cases = [(s, data, w.put(data)) for s, data in small_sprites(rng, n, **genkw)]
+        if extra_cases:
+            for s, data in extra_cases(rng, tier):
+                cases.append((s, data, w.put(data)))
+        paths = [c[2] for c in cases]
+        corpus = corpus_files() if include_corpus else []
+        allp = paths + corpus
+        ib = vplib.impl_observe(profiles[0], allp, w.dir, level, max_frames=max_frames if max_frames else None,
+                                max_layers=max_layers)
+        others = {p: vplib.impl_observe(p, allp, w.dir, level, max_frames=max_frames, max_layers=max_layers) for p in profiles[1:]}
+        mb = vplib.model_observe(allp, w.dir, level, max_frames=max_frames, max_layers=max_layers)
+        corr_fail, direct_fail = [], []
+        sigs = set()
+        for i, p in enumerate(allp):
+            d = same_block(ib[i], mb[i], kinds)
+            if d:
+                corr_fail.append({"input": p, "diff": d, "_data": open(p, "rb").read()})
+            for prof, ob_ in others.items():
+                if ob_[i] is None or ib[i] is None or ob_[i][0] != ib[i][0]:
+                    direct_fail.append({"what": "observation differs between build profiles", "profiles": [profiles[0], prof],
+                                        "input": p, "_data": open(p, "rb").read()})
+            if vplib.section_panic(ib[i]) is not None or outcome(ib[i]) == 9:
+                direct_fail.append({"what": "accessor panicked", "input": p, "comments": ib[i][1][:3] if ib[i] else None,
+                                    "_data": open(p, "rb").read()})
+                continue
+            if i < len(cases):
+                s, data, _ = cases[i]
+                sigs.add(json.dumps(gen.describe(s), sort_keys=True))
+                if outcome(ib[i]) != 0:
+                    direct_fail.append({"what": "well-formed generated sprite does not load", "outcome": outcome(ib[i]),
+                                        "comments": ib[i][1][:3], "sprite": gen.describe(s), "_data": data})
+                    continue
+                for msg in direct(s, data, ib[i]):
+                    direct_fail.append({"what": msg, "sprite": gen.describe(s), "_data": data})
+        proof_level_coverage(v, ob, {
+            "evaluations": len(allp), "distinct_nontrivial": len(sigs) + len(corpus), "rule": rule,
+            "samples": [gen.describe(c[0]) for c in cases[:3]],
+            "correspondence_disagreements": len(corr_fail), "direct_failures": len(direct_fail)})
+        return finish_with(v, ob, corr_fail, direct_fail)
+    finally:
+        w.cleanup()
+
+
+# ==========================================================================
+# C02  frame image = bottom-to-top composition of visible layers
+# ==========================================================================
+def direct_C02(s, data, blk) -> List[str]:
+    out = []
+    W, H = s["width"], s["height"]
+    imgs = images_of(blk, 22)
+    for f in range(len(s["durations"])):
+        im = imgs.get((f,))
+        if im is None:
+            out.append("frame %d image missing" % f)
+            continue
+        if im[0] != W or im[1] != H or len(im) != 2 + W * H:
+            out.append("frame %d image has dimensions %s, canvas is %dx%d" % (f, im[:2], W, H))
+            continue
+        cov = covered_mask(s, f)
+        for k in range(W * H):
+            if not cov[k] and im[2 + k] != 0:
+                out.append("frame %d pixel %d is covered by no visible cel but is not transparent" % (f, k))
+                break
+        # a frame with exactly one visible layer that has a cel equals that cel's image
+        vis = gen.visible_of(s)
+        ls = [l for l in range(len(s["layers"])) if vis[l] and (f, l) in s["cels"]]
+        if len(ls) == 1 and im[2:] != expected_cel_image(s, f, ls[0]):
+            out.append("frame %d has the single visible cel of layer %d but differs from that cel's pixels" % (f, ls[0]))
+        if not ls and any(im[2:]):
+            out.append("frame %d has no visible cel but is not fully transparent" % f)
+    return out
+
+
+def check_C02(tier, seed):
+    def extra(rng, tier):
+        # the same sprite with its cel chunks stored in a different order
+        out = []
+        for _ in range(40 if tier == "quick" else 400):
+            s = gen.gen_sprite(rng, max_canvas=8, max_layers=6, max_frames=2, rich=False)
+            ch = gen.default_choices()
+            ch["shuffle_cels"] = True
+            out.append((s, gen.encode(s, ch, rng)))
+        return out
+    return run_sprites("C02", tier, seed, 2, 300, 4000, dict(max_canvas=10, max_layers=8, max_frames=3, rich=False), [1, 22],
+                       direct_C02,
+                       "structured sprites (canvas <= 10x10, 1-8 layers, all 19 blend modes, boundary-biased opacities on layer and cel, hidden layers "
+                       "and groups, linked/tilemap/raw/zlib cels, offsets on/partly off/fully off canvas and at the i16 extremes, cel chunks shuffled) "
+                       "+ corpus; model frame images = implementation frame images; direct: canvas dimensions, uncovered pixels transparent, "
+                       "single-visible-cel frames equal the cel's pixels; distinct = distinct structural summaries",
+                       ["C02_dims"], extra_cases=extra, max_frames=4)
+
+
+# ==========================================================================
+# C06  cel pixels decode correctly
+# ==========================================================================
+def direct_C06(s, data, blk) -> List[str]:
+    out = []
+    imgs = images_of(blk, 24)
+    heads = {(l[2], l[3]): l for l in blk[0] if l and l[0] == 23 and l[1] == 0}
+    exp_heads = gen.expected_cel_heads(s)
+    for (f, l), eh in exp_heads.items():
+        h = heads.get((f, l))
+        if h is None:
+            out.append("cel (%d,%d) not reported" % (f, l))
+            continue
+        if h[4:6] != [f, l] or h[6:10] != eh:
+            out.append("cel (%d,%d) reports frame/layer/is_empty/x/y/is_tilemap %s, expected %s" % (f, l, h[4:10], [f, l] + eh))
+        im = imgs.get((f, l))
+        if im is None or im[:2] != [s["width"], s["height"]]:
+            out.append("cel (%d,%d) image missing or not canvas sized" % (f, l))
+        elif im[2:] != expected_cel_image(s, f, l):
+            out.append("cel (%d,%d) image differs from the stored pixels placed at the offset" % (f, l))
+    return out[:3]
+
+
+def check_C06(tier, seed):
+    return run_sprites("C06", tier, seed, 4, 300, 4000, dict(max_canvas=8, max_layers=5, max_frames=3, rich=False), [1, 23, 24, 6, 7],
+                       direct_C06,
+                       "structured sprites in the three pixel formats (transparent index over 0..255, background and non-background layers, raw and "
+                       "zlib storage, sparse palettes with alpha < 255, linked cels, tilemap cels) + corpus; model cel observations = implementation; "
+                       "direct: every cel's image equals the stored pixels at the offset with alpha scaled by mul_un8(layer, cel) computed "
+                       "independently in Python; emptiness/offset/tilemap-ness as encoded",
+                       ["C06_empty"], max_frames=4, max_layers=6)
+
+
+# ==========================================================================
+# C19  all access paths agree
+# ==========================================================================
+def direct_C19(s, data, blk) -> List[str]:
+    out = []
+    r = {}
+    for l in blk[0]:
+        if l and l[0] == 23:
+            r.setdefault((l[2], l[3]), {})[l[1]] = l[4:]
+    for key, routes in r.items():
+        if len(routes) != 3 or not (routes[0] == routes[1] == routes[2]):
+            out.append("routes to cel %s disagree: %s" % (key, routes))
+        elif routes[0][:2] != list(key):
+            out.append("cel %s reports coordinates %s" % (key, routes[0][:2]))
+    cel_imgs = images_of(blk, 24)
+    for (l, f), im in images_of(blk, 27).items():
+        if cel_imgs.get((f, l)) != im:
+            out.append("tilemap image of layer %d frame %d differs from its cel's image" % (l, f))
+    return out[:3]
+
+
+def check_C19(tier, seed):
+    return run_sprites("C19", tier, seed, 15, 200, 3000, dict(max_canvas=6, max_layers=5, max_frames=4, rich=False),
+                       [1, 22, 23, 24, 25, 27, 6, 7], direct_C19,
+                       "structured sprites with non-square frame/layer counts; for every (frame, layer) the three routes report identical coordinates, "
+                       "emptiness, offset, tilemap-ness; tilemap image = cel image; model = implementation on all of it",
+                       ["C19_routes"], max_frames=5, max_layers=6)
+
+
+# ==========================================================================
+# C08  tilemap and tileset images agree with tile lookups
+# ==========================================================================
+def direct_C08(s, data, blk) -> List[str]:
+    out = []
+    W, H = s["width"], s["height"]
+    tile_imgs = images_of(blk, 20)
+    full = images_of(blk, 19)
+    for t in s["tilesets"]:
+        tw, th, cnt = t["tw"], t["th"], t["count"]
+        fi = full.get((t["id"],))
+        if fi is None or fi[:2] != [tw, th * cnt]:
+            out.append("tileset %d image has dimensions %s" % (t["id"], fi[:2] if fi else None))
+            continue
+        for i in range(min(cnt, 64)):
+            ti = tile_imgs.get((t["id"], i))
+            if ti is None or ti[:2] != [tw, th]:
+                out.append("tile image %d of tileset %d has dimensions %s" % (i, t["id"], ti[:2] if ti else None))
+            elif ti[2:] != fi[2 + i * tw * th: 2 + (i + 1) * tw * th]:
+                out.append("tileset %d image is not its tile images stacked (tile %d)" % (t["id"], i))
+    heads = {(l[1], l[2]): l for l in blk[0] if l and l[0] == 25 and l[1] >= 0}
+    lookups = {(l[1], l[2]): l[4:] for l in blk[0] if l and l[0] == 26}
+    tm_imgs = images_of(blk, 27)
+    for (l, f), h in heads.items():
+        c = s["cels"].get((f, l))
+        is_tm = c is not None and c["kind"] == "tilemap"
+        if h[3] != (1 if is_tm else 0):
+            out.append("tilemap(%d,%d) presence %d" % (l, f, h[3]))
+            continue
+        if not is_tm:
+            continue
+        ts = next(t for t in s["tilesets"] if t["id"] == s["layers"][l]["tileset"])
+        tw, th = ts["tw"], ts["th"]
+        ew, eh = -(-W // tw), -(-H // th)
+
+        def tdiv(a, b):
+            q = abs(a) // b
+            return q if a >= 0 else -q
+        exp = [1, ew, eh, tw, th, tdiv(c["x"], tw), tdiv(c["y"], th), c["x"], c["y"]]
+        if h[3:] != exp:
+            out.append("tilemap(%d,%d) header %s, expected %s" % (l, f, h[3:], exp))
+            continue
+        ids = lookups.get((l, f))
+        gw, gh = min(ew + 2, 20), min(eh + 2, 20)
+        ox, oy = exp[5], exp[6]
+
+        def stored(X, Y):
+            x, y = X - ox, Y - oy
+            return c["tiles"][y * c["w"] + x] if (0 <= x < c["w"] and 0 <= y < c["h"]) else 0
+        k = 0
+        for Y in range(gh):
+            for X in range(gw):
+                if ids[k] != stored(X, Y):
+                    out.append("tile(%d,%d) of tilemap(%d,%d) is %d, stored %d" % (X, Y, l, f, ids[k], stored(X, Y)))
+                k += 1
+        LAT = [0, 1, 65535, 65536, 2147483647, 2147483648, 4294967295]
+        for Y in LAT:
+            for X in LAT:
+                if ids[k] != stored(X, Y):
+                    out.append("tile(%d,%d) of tilemap(%d,%d) is %d, stored %d" % (X, Y, l, f, ids[k], stored(X, Y)))
+                k += 1
+        # the image shows, at each canvas position, the pixel of the looked-up tile (alpha scaled)
+        im = tm_imgs.get((l, f))
+        op = mul_un8(s["layers"][l]["opacity"], c["opacity"])
+        if im is not None and c["x"] % tw == 0 and c["y"] % th == 0 and ew <= 18 and eh <= 18:
+            for y in range(H):
+                for x in range(W):
+                    X, Y = x // tw, y // th
+                    inside = 0 <= X - ox < c["w"] and 0 <= Y - oy < c["h"]
+                    if inside:
+                        tid = ids[Y * gw + X]
+                        ti = tile_imgs.get((ts["id"], tid))
+                        if ti is None:
+                            continue
+                        r, g, b, a = unpackpix(ti[2 + (y % th) * tw + (x % tw)])
+                        want = packpix(r, g, b, mul_un8(a, op))
+                    else:
+                        want = 0
+                    if im[2 + y * W + x] != want:
+                        out.append("tilemap(%d,%d) image pixel (%d,%d) is %d, tile lookup says %d" % (l, f, x, y, im[2 + y * W + x], want))
+                        return out[:3]
+    return out[:3]
+
+
+def check_C08(tier, seed):
+    def only_tilemaps(rng, tier):
+        out = []
+        n = 150 if tier == "quick" else 2500
+        while len(out) < n:
+            s = gen.gen_sprite(rng, max_canvas=12, max_layers=4, max_frames=2, rich=False)
+            if s["tilesets"] and any(c["kind"] == "tilemap" for c in s["cels"].values()):
+                out.append((s, gen.encode(s, gen.random_choices(rng), rng)))
+        return out
+    return run_sprites("C08", tier, seed, 12, 50, 500, dict(max_canvas=12, max_layers=4, max_frames=2, rich=False),
+                       [1, 19, 20, 25, 26, 27], direct_C08,
+                       "structured sprites with tilesets (tile sizes 1..5 x 1..5, 1-6 tiles, three pixel formats) and tilemap cels of any stored size at "
+                       "tile-aligned offsets incl. negative and far off-canvas; lookups on the grid and on the lattice {0,1,65535,65536,2^31-1,2^31,2^32-1}^2; "
+                       "direct: size = ceil(canvas/tile), offsets = cel offset / tile size, lookups = stored ids or 0 outside, image pixel = looked-up "
+                       "tile's pixel with scaled alpha, tileset image = stacked tile images; model = implementation",
+                       ["C08_size"], extra_cases=only_tilemaps, max_frames=3, max_layers=5)
+
+
+# ==========================================================================
+# C05  a sprite that loads is fully usable
+# ==========================================================================
+def check_C05(tier: str, seed: int) -> int:
+    v = Verdict("C05", tier, seed, "proof")
+    ob = vplib.check_obligations("C05")
+    vplib.build_harness(["dev", "relchk"])
+    w = Work("C05")
+    try:
+        rng = random.Random(seed + 5)
+        stream = corruption_stream(rng, tier, w)
+        for s, data in small_sprites(rng, 150 if tier == "quick" else 2000, max_canvas=8, max_layers=6, max_frames=3):
+            stream.append((w.put(data, "wf"), "well-formed generated sprite"))
+        for p in corpus_files():
+            stream.append((p, "corpus"))
+        paths = [p for p, _ in stream]
+        # first pass: which inputs load (cheap), then the full API walk on those
+        pre = vplib.impl_observe("relchk", paths, w.dir, 0, mem_kb=2 * 1024 * 1024)
+        loaded = [i for i in range(len(paths)) if outcome(pre[i]) == 0]
+        lp = [paths[i] for i in loaded]
+        res = {prof: vplib.impl_observe(prof, lp, w.dir, 31, max_frames=3, max_layers=6, timeout=2400, mem_kb=4 * 1024 * 1024, tag="walk")
+               for prof in ("dev", "relchk")}
+        mb = vplib.model_observe(lp, w.dir, 15, max_frames=3, max_layers=6, timeout=3000)
+        corr_fail, direct_fail = [], []
+        distinct = set()
+        for k, i in enumerate(loaded):
+            p, desc = stream[i]
+            distinct.add(hashlib.sha1(open(p, "rb").read()).hexdigest())
+            for prof in ("dev", "relchk"):
+                b = res[prof][k]
+                sp = vplib.section_panic(b)
+                if outcome(b) != 0 or sp is not None or not any(l and l[0] == 98 for l in b[0]):
+                    direct_fail.append({"what": "an accessor failed on a sprite that loaded", "profile": prof, "section": sp, "mutation": desc,
+                                        "comments": b[1][:3] if b else None, "_data": open(p, "rb").read()})
+            d = same_block(res["relchk"][k], mb[k])
+            if d:
+                corr_fail.append({"input": p, "mutation": desc, "diff": d, "_data": open(p, "rb").read()})
+            if res["dev"][k] is not None and res["relchk"][k] is not None and res["dev"][k][0] != res["relchk"][k][0]:
+                direct_fail.append({"what": "observation differs between dev and relchk builds", "mutation": desc, "_data": open(p, "rb").read()})
+            # documented dimensions
+            b = res["relchk"][k]
+            if outcome(b) == 0:
+                hdr = next((l for l in b[0] if l[0] == 2), None)
+                for l in b[0]:
+                    if l[0] in (22, 24, 27) and hdr:
+                        off = {22: 2, 24: 3, 27: 3}[l[0]]
+                        if l[off:off + 2] != hdr[1:3] or len(l) != off + 2 + hdr[1] * hdr[2]:
+                            direct_fail.append({"what": "image does not have the canvas dimensions", "line": l[:5], "_data": open(p, "rb").read()})
+                            break
+        proof_level_coverage(v, ob, {
+            "evaluations": len(paths) + 2 * len(lp), "distinct_nontrivial": len(distinct),
+            "rule": "the corruption stream of C04 plus well-formed sprites and the corpus; every input that loads gets the complete public API walk "
+                    "(STRUCT, FRAMES, CELS, TILES, Debug formatting; all accessors, tile lookups on a coordinate lattice) in the dev and relchk builds; "
+                    "no panic, documented image dimensions, dev = relchk, and full observation equality with the model; distinct = distinct loadable byte strings",
+            "samples": [stream[i][1] for i in loaded[:3]] + [stream[i][1] for i in loaded[-2:]],
+            "loaded": len(lp), "inputs": len(paths),
+            "correspondence_disagreements": len(corr_fail), "direct_failures": len(direct_fail)})
+        v.assumptions = ["canvas area is bounded by what the generated files declare; allocator exhaustion on a documented-size result is an environment limit"]
+        return finish_with(v, ob, corr_fail, direct_fail)
+    finally:
+        w.cleanup()
+
+
+
+# ==========================================================================
+# C14  result independent of reader behaviour; I/O errors are returned
+# ==========================================================================
+IOKINDS = [1, 2, 3, 5, 6, 7, 8, 9, 10, 11]     # every code of the harness table except Interrupted (4)
+
+
+def run_sched(driver_cmd: List[str], cases: List[str], workdir: str, tag: str, model: bool):
+    return vplib.run_sharded(driver_cmd, cases, workdir, tag, timeout=1800, mem_kb=None if model else 4000000, model=model)
+
+
+def check_C14(tier: str, seed: int) -> int:
+    v = Verdict("C14", tier, seed, "proof")
+    ob = vplib.check_obligations("C14", expected=["C14_schedule", "C14_fault_offset", "C14_fault_event"])
+    vplib.build_harness(["release"])
+    w = Work("C14")
+    try:
+        rng = random.Random(seed)
+        bases: List[Tuple[str, bytes, str]] = []
+        for i, (s, data) in enumerate(small_sprites(rng, 30 if tier == "quick" else 400, max_canvas=5, max_layers=4, max_frames=3)):
+            if len(data) <= (1200 if tier == "quick" else 5000):
+                bases.append(("gen%d" % i, data, w.put(data)))
+        for p in small_corpus(1300 if tier == "quick" else 16384):
+            bases.append((p, open(p, "rb").read(), p))
+        # also a few malformed inputs: the result (an error) must be schedule independent too
+        for name, data in special_files(rng)[2:10]:
+            bases.append(("special:" + name, data, w.put(data)))
+        cases: List[Tuple[str, str, str, tuple]] = []     # (case line, base, kind, args)
+        for name, data, path in bases:
+            n = len(data)
+            cases.append(("%s plain" % path, name, "plain", ()))
+            cases.append(("%s one" % path, name, "one", ()))
+            for k in range(8 if tier == "quick" else 60):
+                sd, mx = rng.randrange(1, 2 ** 32), rng.choice([1, 2, 3, 7, 16, 100, 4096])
+                cases.append(("%s chunks %d %d" % (path, sd, mx), name, "chunks", (sd, mx)))
+                cases.append(("%s intr %d %d" % (path, sd, mx), name, "intr", (sd, mx)))
+            for cap in (1, 7, 8192):
+                cases.append(("%s bufreader %d" % (path, cap), name, "other", ()))
+            cases.append(("%s cursor" % path, name, "other", ()))
+            cases.append(("%s file" % path, name, "other", ()))
+            cases.append(("%s chain %d" % (path, n // 2), name, "other", ()))
+            step = 1 if n <= 400 or tier != "quick" else 3
+            for off in list(range(0, n + 2, step)):
+                kind = IOKINDS[(off + len(cases)) % len(IOKINDS)]
+                cases.append(("%s hard %d %d" % (path, off, kind), name, "hard", (off, kind)))
+        lines = [c[0] for c in cases]
+        ib = run_sched([vplib.impl_driver("release"), "sched"], lines, w.dir, "isched", False)
+        mb = run_sched([vplib.MODEL_DRIVER, "sched"], lines, w.dir, "msched", True)
+        plain: Dict[str, Tuple[object, object]] = {}
+        corr_fail, direct_fail = [], []
+        kinds = Counter()
+        for i, (line, name, kind, args) in enumerate(cases):
+            kinds[kind] += 1
+            if kind == "plain":
+                plain[name] = (ib[i], mb[i])
+        for i, (line, name, kind, args) in enumerate(cases):
+            bi, bm = ib[i], mb[i]
+            pi, pm = plain[name]
+            io = outcome(bi)
+            if outcome_class(io) == "panic":
+                direct_fail.append({"what": "panic / lost worker under a reader schedule", "case": line, "comments": bi[1][:3] if bi else None})
+                continue
+            if kind in ("one", "chunks", "intr", "other"):
+                if bi[0] != pi[0]:
+                    direct_fail.append({"what": "result depends on how the reader delivers the bytes", "case": line,
+                                        "got": bi[0][:3], "plain": pi[0][:3]})
+            elif kind == "hard":
+                off, kc = args
+                ok_same = bi[0] == pi[0]
+                l30 = next((l for l in bi[0] if l[0] == 30), None)
+                is_ioerr = io == 4 and l30 is not None and l30[1] == kc and l30[2] == 1 and l30[3] == kc
+                if not (ok_same or is_ioerr):
+                    direct_fail.append({"what": "an injected I/O error came back neither as the plain result nor as IoError carrying that error",
+                                        "case": line, "got": bi[0][:3], "plain": pi[0][:3]})
+                if io == 0 and outcome(pi) != 0:
+                    direct_fail.append({"what": "a sprite was returned although the plain load fails", "case": line})
+            # model vs implementation: same outcome, same error kind, same observation hash
+            if bi is None or bm is None or bi[0] != bm[0]:
+                if not (1 <= io <= 3 and 1 <= outcome(bm) <= 3):
+                    corr_fail.append({"case": line, "impl": bi[0][:3] if bi else None, "model": bm[0][:3] if bm else None})
+        proof_level_coverage(v, ob, {
+            "evaluations": len(cases), "distinct_nontrivial": len(cases) - kinds["plain"],
+            "rule": "per base file (%d files: generated, small corpus, malformed): one byte at a time; random partitions of the byte stream (xorshift, "
+                    "max sizes 1..4096) with and without an Interrupted result before every read; BufReader capacities 1/7/8192, Cursor, chained "
+                    "reader, read_file on the path; a hard I/O error of rotating kind (10 kinds) at every byte offset (every third offset for files "
+                    "above 400 bytes in the quick tier); non-trivial = not the plain read" % len(bases),
+            "samples": lines[:2] + lines[-2:], "schedule_kinds": dict(kinds),
+            "correspondence_disagreements": len(corr_fail), "direct_failures": len(direct_fail)})
+        v.assumptions = ["BufReader, the file system and byteorder are std/third-party code observed, not modelled; the theorems are about any reader "
+                         "following the Read contract as modelled in Model/Sched.v"]
+        return finish_with(v, ob, corr_fail, direct_fail)
+    finally:
+        w.cleanup()
+
+
+CHECKS: Dict[str, Callable[[str, int], int]] = {"C01": check_C01, "C02": check_C02, "C04": check_C04, "C05": check_C05, "C06": check_C06,
+                                                "C08": check_C08, "C13": check_C13, "C14": check_C14, "C19": check_C19}
+
 
 
 
